@@ -23,6 +23,8 @@ package fakeprom
 //	bad_data      400 + {"status":"error","errorType":"bad_data",...}
 //	execution     422 + {"status":"error","errorType":"execution",...}
 //	404           plain "404 page not found"
+//	http:<code>:<body>  any status code (registered with net/http or not: 509, 520-527, 530, 598, 599 ...) with a body of kind
+//	              empty | html | text | truncjson | json-<errorType>, see HTTPMode
 //	truncated     200, Content-Length of the full healthy body, half of it sent, connection closed
 //
 // Unavailable() says which modes mean "this upstream cannot be reached / is broken" (refused, timeout, 500, 503,
@@ -34,6 +36,7 @@ import (
 	"net/http"
 	"os"
 	"strconv"
+	"strings"
 	"sync"
 	"sync/atomic"
 	"syscall"
@@ -57,7 +60,45 @@ const (
 
 var Modes = []Mode{ModeHealthy, ModeRefused, ModeTimeout, ModeHTTP500, ModeHTTP503, ModeServerError, ModeBadData, ModeExecution, ModeNotFound, ModeTruncated}
 
+// HTTPMode is a parametrised fault mode: the upstream answers every request with the given status code and a body of
+// the given kind - "empty", "html", "text", "truncjson" (a JSON error envelope cut in half) or "json-<errorType>"
+// (a complete Prometheus error envelope with that errorType). Any status can be used, registered with net/http or
+// not (520-527, 530, 509, 598, 599 ...). Spelled "http:<code>:<body>".
+func HTTPMode(code int, body string) Mode { return Mode(fmt.Sprintf("http:%d:%s", code, body)) }
+
+// HTTP decodes a parametrised mode.
+func (m Mode) HTTP() (code int, body string, ok bool) {
+	parts := strings.SplitN(string(m), ":", 3)
+	if len(parts) != 3 || parts[0] != "http" {
+		return 0, "", false
+	}
+	code, err := strconv.Atoi(parts[1])
+	if err != nil || code < 100 || code > 999 {
+		return 0, "", false
+	}
+	switch b := parts[2]; {
+	case b == "empty", b == "html", b == "text", b == "truncjson", strings.HasPrefix(b, "json-") && len(b) > 5:
+		return code, b, true
+	}
+	return 0, "", false
+}
+
+// Valid tells whether m is one of Modes or a well-formed parametrised mode.
+func (m Mode) Valid() bool {
+	for _, x := range Modes {
+		if x == m {
+			return true
+		}
+	}
+	_, _, ok := m.HTTP()
+	return ok
+}
+
+// Unavailable: for parametrised modes the status CLASS decides - any 5xx means the server is in trouble.
 func (m Mode) Unavailable() bool {
+	if code, _, ok := m.HTTP(); ok {
+		return code/100 == 5
+	}
 	switch m {
 	case ModeRefused, ModeTimeout, ModeHTTP500, ModeHTTP503, ModeServerError:
 		return true
@@ -106,10 +147,15 @@ func NewUpstream(index int, def Mode, per map[string]Mode, clock *Clock) *Upstre
 	}
 	u := &Upstream{Index: index, def: def, per: per, clock: clock, fd: -1}
 	if def == ModeRefused {
-		if err := u.bindOnly([4]byte{127, 0, 0, 1}, 0); err != nil {
-			panic(err)
+		var err error
+		for try := 0; try < 8; try++ {
+			n := listenCounter.Add(1)
+			ip := [4]byte{127, byte(1 + os.Getpid()%200), byte((n / 250) % 250), byte(1 + n%250)}
+			if err = u.bindOnly(ip, 0); err == nil {
+				return u
+			}
 		}
-		return u
+		panic(err)
 	}
 	u.serve(Listen())
 	return u
@@ -136,6 +182,8 @@ func (u *Upstream) bindOnly(ip [4]byte, port int) error {
 	if err != nil {
 		return err
 	}
+	// always: connections closed by a listener on this socket linger in TIME_WAIT with the listener's flags, and
+	// SetMode must be able to take the port back right after closing the listener
 	_ = syscall.SetsockoptInt(fd, syscall.SOL_SOCKET, syscall.SO_REUSEADDR, 1)
 	if err := syscall.Bind(fd, &syscall.SockaddrInet4{Port: port, Addr: ip}); err != nil {
 		_ = syscall.Close(fd)
@@ -359,7 +407,30 @@ func (u *Upstream) handle(w http.ResponseWriter, r *http.Request) {
 		}
 		_ = conn.Close()
 	default:
+		code, kind, ok := mode.HTTP()
+		if !ok {
+			done()
+			w.WriteHeader(http.StatusTeapot)
+			return
+		}
 		done()
-		w.WriteHeader(http.StatusTeapot)
+		var body string
+		switch {
+		case kind == "html":
+			w.Header().Set("Content-Type", "text/html")
+			body = fmt.Sprintf("<html><head><title>%d</title></head><body><h1>Error %d</h1><p>upstream %d</p></body></html>\n", code, code, u.Index)
+		case kind == "text":
+			w.Header().Set("Content-Type", "text/plain")
+			body = fmt.Sprintf("error %d from upstream %d\n", code, u.Index)
+		case kind == "truncjson":
+			w.Header().Set("Content-Type", "application/json")
+			full := ErrorBody("server_error", mode.ErrorText(u.Index))
+			body = full[:len(full)/2]
+		case strings.HasPrefix(kind, "json-"):
+			w.Header().Set("Content-Type", "application/json")
+			body = ErrorBody(strings.TrimPrefix(kind, "json-"), mode.ErrorText(u.Index))
+		}
+		w.WriteHeader(code)
+		_, _ = w.Write([]byte(body))
 	}
 }
